@@ -145,8 +145,15 @@ static int attr_slot(int elem, int attr)
 static int g_text_n[NLIT], g_text_vtag[NLIT], g_text_va[NLIT];                    /* text written directly inside element */
 static int g_label_n[NLIT], g_label_vtag[NLIT], g_label_va[NLIT], g_label_va2[NLIT]; /* per label kind; va2 = text of the 2nd label of that kind */
 static int g_cur_label_kind;
-static void rec(int op, const void* name, const void* val)
+/* libxml2's writer state (xmlwriter.c): attributes are accepted only while the start tag of the current element is still
+   open, i.e. before any text or child element has been written into it; otherwise the call returns -1 and writes nothing.
+   Closing an element that was never opened returns -1 as well. */
+static int g_tag_open;
+static int rec(int op, const void* name, const void* val)
 {
+    if (op == EV_ATTR && !(g_depth > 0 && g_tag_open)) return -1;
+    if (op == EV_END && g_depth == 0) { g_underflow = 1; return -1; }
+    g_tag_open = (op == EV_START || (op == EV_ATTR && g_tag_open));
     __CPROVER_assert(nev < NEV, "stub: trace capacity");
     int nm = name ? rec_of(name)->a : 0;
     int vt = val ? rec_of(val)->tag : 0;
@@ -175,14 +182,15 @@ static void rec(int op, const void* name, const void* val)
     } else if (op == EV_ELEM) {
         g_start_count[nm]++;
     }
+    return 0;
 }
 typedef int* xmlTextWriterPtr;
-static int g_fail; /* libxml2 never fails here (its failures are the XMLWriterError paths: not modelled) */
-static int xmlTextWriterStartElement(xmlTextWriterPtr, const xmlChar* n) { rec(EV_START, n, 0); return 0; }
-static int xmlTextWriterEndElement(xmlTextWriterPtr) { rec(EV_END, 0, 0); return 0; }
-static int xmlTextWriterWriteElement(xmlTextWriterPtr, const xmlChar* n, const xmlChar* c) { rec(EV_ELEM, n, c); return 0; }
-static int xmlTextWriterWriteString(xmlTextWriterPtr, const xmlChar* d) { rec(EV_STR, 0, d); return 0; }
-static int xmlTextWriterWriteAttribute(xmlTextWriterPtr, const xmlChar* n, const xmlChar* v) { rec(EV_ATTR, n, v); return 0; }
+static int g_fail; /* apart from its state machine (g_tag_open, depth) libxml2 never fails here: out-of-memory / I/O failures are not modelled */
+static int xmlTextWriterStartElement(xmlTextWriterPtr, const xmlChar* n) { return rec(EV_START, n, 0); }
+static int xmlTextWriterEndElement(xmlTextWriterPtr) { return rec(EV_END, 0, 0); }
+static int xmlTextWriterWriteElement(xmlTextWriterPtr, const xmlChar* n, const xmlChar* c) { return rec(EV_ELEM, n, c); }
+static int xmlTextWriterWriteString(xmlTextWriterPtr, const xmlChar* d) { return rec(EV_STR, 0, d); }
+static int xmlTextWriterWriteAttribute(xmlTextWriterPtr, const xmlChar* n, const xmlChar* v) { return rec(EV_ATTR, n, v); }
 static xmlChar* ConvertInput(const char* in, const char*) { return (xmlChar*)in; } /* re-encoding keeps the text */
 static void xmlFree(void*) {}
 struct XMLWriterError { XMLWriterError(const char*) {} };
@@ -293,7 +301,7 @@ extern "C" {
 void w20_reset(void)
 {
     nev = 0; verif_thrown = 0; W.selfLoops.clear();
-    g_depth = 0; g_underflow = 0; g_cur_label_kind = 0;
+    g_depth = 0; g_underflow = 0; g_cur_label_kind = 0; g_tag_open = 0;
     for (int i = 0; i < NLIT; i++) {
         g_start_count[i] = 0; g_text_n[i] = 0; g_label_n[i] = 0; g_label_va2[i] = 0;
     }
